@@ -1,1 +1,165 @@
-//! Kani harnesses (carrier)
+//! Kani harnesses for `Carrier` (child module of teos/src/carrier.rs under cfg(kani)). Serves C12.K1, C01.K3, C02.
+//!
+//! The node is `models/bitcoind.rs` (any reply, bounded number of transport errors). The condvar wait of
+//! `hang_until_bitcoind_reachable` cannot be executed by Kani (futex) and is the subject of Engine M; here it is replaced
+//! by `hang_model`: it records whether the flag was down on entry and puts it back up = "the chain monitor's next
+//! successful poll happened".
+use super::*;
+use crate::verif_bitcoind as node;
+use crate::verif_bitcoind::Outcome;
+use crate::verif_stubs::{tx, txid_model};
+
+pub static mut HANG_CALLS: u8 = 0;
+pub static mut HANG_SAW_DOWN: u8 = 0;
+
+impl Carrier {
+    pub(crate) fn hang_model(&self) {
+        let (lock, _) = &*self.bitcoind_reachable;
+        let mut reachable = lock.lock().unwrap();
+        unsafe {
+            HANG_CALLS += 1;
+            if !*reachable {
+                HANG_SAW_DOWN += 1;
+            }
+        }
+        *reachable = true;
+    }
+    /// Contract of `send_transaction` as established by `c12_k1_send_through_outage` (used to verify the Responder's
+    /// loops against the carrier's contract instead of through its code): the transaction is handed to the node, the
+    /// verdict is the mapping of *some* node reply at the carrier's current height, never `ConfirmedIn`.
+    /// Over-approximation: no memoisation (every call may get a fresh verdict).
+    pub(crate) fn send_transaction_contract(&mut self, tx: &Transaction) -> ConfirmationStatus {
+        use crate::verif_bitcoind as node;
+        let o = unsafe {
+            kani::assume(node::N_SENT < node::MAX_LOG);
+            node::SENT[node::N_SENT] = Some(tx.compute_txid());
+            node::N_SENT += 1;
+            let o = match node::SCRIPT.take() {
+                Some(o) => o,
+                None => match kani::any::<u8>() % 4 {
+                    0 => Outcome::Ok,
+                    1 => Outcome::Rpc(kani::any()),
+                    2 => Outcome::JsonOther,
+                    _ => Outcome::Other,
+                },
+            };
+            node::LAST_OUTCOME = Some(o);
+            node::SEND_OUTCOMES[node::N_SENT - 1] = Some(o);
+            o
+        };
+        expected_status(o, self.block_height)
+    }
+    pub(crate) fn verif_receipts_len(&self) -> usize {
+        self.issued_receipts.len()
+    }
+}
+
+pub(crate) fn any_carrier() -> (Carrier, Arc<(Mutex<bool>, Condvar)>, u32) {
+    let cli = Arc::new(BitcoindClient::model());
+    let reach = Arc::new((Mutex::new(true), Condvar::new()));
+    let mut c = Carrier::new(cli, reach.clone(), 0);
+    let h: u32 = kani::any();
+    c.update_height(h);
+    (c, reach, h)
+}
+
+pub(crate) fn expected_status(o: Outcome, h: u32) -> ConfirmationStatus {
+    match o {
+        Outcome::Ok | Outcome::OkConfirmed => ConfirmationStatus::InMempoolSince(h),
+        Outcome::Rpc(-26) => ConfirmationStatus::Rejected(-26),
+        Outcome::Rpc(-25) => ConfirmationStatus::Rejected(-25),
+        Outcome::Rpc(-27) => ConfirmationStatus::IrrevocablyResolved,
+        Outcome::Rpc(-22) => ConfirmationStatus::Rejected(-22),
+        _ => ConfirmationStatus::Rejected(-257),
+    }
+}
+
+/// C12.K1 / C01.K3: send_transaction through an outage of k <= 2 transport errors: the same transaction is re-submitted
+/// until a non-transport reply arrives, the flag goes down at every transport error, nothing is memoised for a failed
+/// attempt, the verdict is the verdict of the first non-transport reply; afterwards the verdict is memoised (<= 1
+/// successful RPC per transaction and block) and another transaction is submitted independently.
+#[kani::proof]
+#[kani::stub(bitcoin::Transaction::compute_txid, crate::verif_stubs::txid_model)]
+#[kani::stub(Carrier::hang_until_bitcoind_reachable, Carrier::hang_model)]
+#[kani::unwind(5)]
+fn c12_k1_send_through_outage() {
+    let (mut c, reach, h) = any_carrier();
+    let budget: u8 = kani::any();
+    kani::assume(budget <= 2);
+    unsafe { node::TRANSPORT_BUDGET = budget };
+    let t = tx(7);
+    let r1 = c.send_transaction(&t);
+    let (n_sent, n_tr, last) = unsafe { (node::N_SENT, node::N_TRANSPORT, node::LAST_OUTCOME) };
+    assert!(n_sent == 1 + n_tr as usize, "C12.retry: one submission per transport error plus the one that got an answer");
+    let mut i = 0;
+    while i < n_sent {
+        assert!(unsafe { node::SENT[i] } == Some(txid_model(&t)), "C12.retry: the interrupted submission is retried with the same transaction");
+        i += 1;
+    }
+    assert!(unsafe { HANG_CALLS } as usize == n_sent, "C12.retry: every attempt first waits for the node to be reachable");
+    assert!(unsafe { HANG_SAW_DOWN } == n_tr, "C12.flag: the tower is flagged unreachable after every transport error");
+    let o = last.unwrap();
+    assert!(r1 == expected_status(o, h), "C01.verdict: Ok => InMempoolSince(height); -26/-25/-22 => Rejected(code); -27 => IrrevocablyResolved; anything else => Rejected(unknown)");
+    assert!(!matches!(r1, ConfirmationStatus::ConfirmedIn(_)), "C01.verdict: the carrier never claims a confirmation");
+    assert!(c.verif_receipts_len() == 1, "C12.memo: exactly the final verdict is memoised");
+    // memoisation: the same transaction is not sent twice in a block
+    let r2 = c.send_transaction(&t);
+    assert!(unsafe { node::N_SENT } == n_sent && r2 == r1, "C01.memo: <= 1 answered RPC per transaction and block, same verdict");
+    // an unrelated transaction is sent
+    unsafe { node::TRANSPORT_BUDGET = 0 };
+    let t2 = tx(8);
+    let _ = c.send_transaction(&t2);
+    assert!(unsafe { node::N_SENT } == n_sent + 1 && unsafe { node::SENT[n_sent] } == Some(txid_model(&t2)),
+        "C01.memo: another transaction is submitted on its own");
+    // new block: receipts cleared, the transaction can be sent again
+    c.clear_receipts();
+    let _ = c.send_transaction(&t);
+    assert!(unsafe { node::N_SENT } == n_sent + 2, "C01.memo: memoisation ends with the block");
+    assert!(*reach.0.lock().unwrap(), "C12.flag: the flag is up again once the node answered");
+    kani::cover!(n_tr == 2, "reach-two-transport-errors");
+    kani::cover!(n_tr == 0 && matches!(o, Outcome::Rpc(-27)), "reach-already-in-chain");
+    std::mem::forget(c);
+}
+
+/// C12.K1b / C01.K3: in_mempool through an outage; true <=> the first non-transport reply is Ok without block hash.
+#[kani::proof]
+#[kani::stub(bitcoin::Transaction::compute_txid, crate::verif_stubs::txid_model)]
+#[kani::stub(Carrier::hang_until_bitcoind_reachable, Carrier::hang_model)]
+#[kani::unwind(5)]
+fn c12_k1_in_mempool_through_outage() {
+    let (c, _reach, _h) = any_carrier();
+    let budget: u8 = kani::any();
+    kani::assume(budget <= 2);
+    unsafe { node::TRANSPORT_BUDGET = budget };
+    let id = txid_model(&tx(9));
+    let r = c.in_mempool(&id);
+    let (n_q, n_tr, last) = unsafe { (node::N_QUERIED, node::N_TRANSPORT, node::LAST_OUTCOME) };
+    assert!(n_q == 1 + n_tr as usize, "C12.retry: the interrupted query is retried");
+    let mut i = 0;
+    while i < n_q {
+        assert!(unsafe { node::QUERIED[i] } == Some(id), "C12.retry: with the same transaction id");
+        i += 1;
+    }
+    assert!(unsafe { HANG_SAW_DOWN } == n_tr, "C12.flag: the tower is flagged unreachable after every transport error");
+    assert!(r == (last == Some(Outcome::Ok)), "C01.mempool: in mempool <=> the node knows the transaction and reports no block");
+    assert!(unsafe { node::N_SENT } == 0, "C02: a query never submits anything");
+    kani::cover!(n_tr == 2 && r, "reach-two-transport-errors-then-found");
+    std::mem::forget(c);
+}
+
+/// C01.K3c: height bookkeeping used for InMempoolSince.
+#[kani::proof]
+#[kani::stub(bitcoin::Transaction::compute_txid, crate::verif_stubs::txid_model)]
+#[kani::stub(Carrier::hang_until_bitcoind_reachable, Carrier::hang_model)]
+#[kani::unwind(5)]
+fn c01_k3_height() {
+    let (mut c, _reach, _h) = any_carrier();
+    let h2: u32 = kani::any();
+    c.update_height(h2);
+    assert!(c.block_height() == h2);
+    unsafe { node::SCRIPT = Some(Outcome::Ok) };
+    let r = c.send_transaction(&tx(1));
+    assert!(r == ConfirmationStatus::InMempoolSince(h2), "C01.verdict: accepted now => in mempool since the carrier's current height");
+    kani::cover!(true, "reach");
+    std::mem::forget(c);
+}
